@@ -12,7 +12,7 @@ invariant and every operation list.
 buckets empty), from which `no_null_deref` follows: `janet_dict_find` never returns NULL where table.c dereferences
 its result, so none of the theorems needs a side condition on the run.
 -/
-import JanetModel.Table.Count
+import JanetModel.Table.Pow2
 import JanetModel.Seq.Model
 
 namespace JanetModel.Props.C04
@@ -199,6 +199,50 @@ theorem length_reachable (h : Nat → Nat) (ops : List Op) (n : Nat) :
     (run h (Table.init n) ops).count = (keysOf (run h (Table.init n) ops).data).length ∧
       (run h (Table.init n) ops).bad = false :=
   ⟨(length_eq_card h _ (inv_reachable h ops _ (inv_init h n)).1).1, (inv_reachable h ops _ (inv_init h n)).1.ok⟩
+
+/-! ### capacity is a power of two -/
+
+def IsPow2 (n : Nat) : Prop := ∃ e, n = 2 ^ e
+
+/-- a fresh table (`janet_table(n)`, `n` an `int32_t`) has a power-of-two capacity -/
+theorem capacity_pow2_init (n : Nat) (hn : n < 2 ^ 32) : IsPow2 (Table.init n).data.size := by
+  obtain ⟨e, he⟩ := tablen_pow2 n hn
+  exact ⟨e, by simp [Table.init, he]⟩
+
+/-- every operation keeps the capacity a power of two, as long as the current capacity fits an `int32_t` (beyond that
+the C overflows `2 * count + 2` anyway) -/
+theorem capacity_pow2_step (h : Nat → Nat) (t : Table) (inv : Inv h t) (hp : IsPow2 t.data.size)
+    (hs : t.data.size < 2 ^ 31) (op : Op) (hm : ∀ kvs, op ≠ .merge kvs) : IsPow2 (step h t op).data.size := by
+  have hput : ∀ k v, IsPow2 (t.putKey h k v).data.size := by
+    intro k v
+    rcases size_putKey h t k v with e | e
+    · rw [e]; exact hp
+    · rw [e]
+      have := inv.c.room
+      obtain ⟨e', he'⟩ := tablen_pow2 (2 * t.count + 2) (by omega)
+      exact ⟨e', by unfold rehashSize; exact he'⟩
+  cases op with
+  | put k v =>
+    cases k with
+    | nil => exact hp
+    | nan => exact hp
+    | key k => exact hput k v
+  | remove k => show IsPow2 (t.remove h k).1.data.size; rw [size_remove]; exact hp
+  | clear => show IsPow2 (Array.replicate t.data.size Slot.empty).size; simpa using hp
+  | merge kvs => exact absurd rfl (hm kvs)
+  | setproto p => exact hp
+
+/-- `merge` is the corresponding sequence of puts, so the previous theorem covers it entry by entry -/
+theorem merge_eq_puts (h : Nat → Nat) (kvs : List Slot) (t : Table) :
+    step h t (.merge kvs) = run h t (kvs.filterMap (fun kv => kv.key.map (fun k => Op.put (.key k) kv.val))) := by
+  induction kvs generalizing t with
+  | nil => rfl
+  | cons kv rest ih =>
+    have e : step h t (.merge (kv :: rest)) = step h (match kv.key with | some k => t.putKey h k kv.val | none => t) (.merge rest) := rfl
+    rw [e, ih]
+    cases hk : kv.key with
+    | none => simp [hk]
+    | some k => simp [hk, run, step, Table.put]
 
 /-- `rawget` reads exactly the bucket array: present key ↦ its value, absent key ↦ nil -/
 theorem rawget_spec (h : Nat → Nat) (t : Table) (inv : Inv h t) (k : Nat) :
